@@ -175,7 +175,13 @@ pub fn run(tier: &str) -> i32 {
         corpus::shape_named("probe:T5000", &[(Seg::T, 5000)]),
         corpus::shape_named("probe:P7x40000+R30000", &[(Seg::P(7), 40000), (Seg::R, 30000)]),
     ];
-    let cfgs = crate::props::c02::explore_cfgs(th);
+    let mut cfgs = crate::props::c02::explore_cfgs(th);
+    // "the same settings" includes the window: configurations below 15 window bits, raw and zlib
+    for (level, strat, zlib, wbits) in [(6u8, 0u8, true, 12u8), (6, 0, false, 12), (9, 0, true, 9), (1, 0, true, 14), (4, 1, false, 13)] {
+        if !cfgs.iter().any(|c| c.level == level && c.strat == strat && c.zlib == zlib && c.wbits == wbits) {
+            cfgs.push(Cfg { level, strat, zlib, wbits, ctor: 0 });
+        }
+    }
     let mut items = vec![];
     for h in 0..hists.len() {
         for c in 0..cfgs.len() {
